@@ -543,14 +543,6 @@ theorem dget_isSome_of_mem {κ β : Type} [DecidableEq κ] {d : List (κ × β)}
     (dget p.1 d).isSome = true := by
   rw [dget_isSome_iff]; exact List.mem_map.2 ⟨p, h, rfl⟩
 
-/-- Canonical members of a class body given in reverse: a line whose value already occurred earlier is an alias. -/
-def canonRev : List (Name × Int) → List EnumMember
-  | [] => []
-  | p :: t => if p.2 ∈ t.map (·.2) then canonRev t else canonRev t ++ [⟨p.1, p.2⟩]
-
-/-- The members `list(E)` shows for a class body: first line of every value, in order. -/
-def canonicalMembers (d : List (Name × Int)) : List EnumMember := canonRev d.reverse
-
 theorem canonRev_mem {r : List (Name × Int)} {m : EnumMember} (h : m ∈ canonRev r) : (m.name, m.value) ∈ r := by
   induction r with
   | nil => cases h
@@ -782,6 +774,144 @@ theorem base_ofDefined {d : List (Name × Int)} (h : enumOk d = true) : EnumBase
   · intro v m hm
     obtain ⟨a, b⟩ := I.v2mVal v m hm
     exact ⟨a, hmem m.name (List.mem_map.2 ⟨_, b, rfl⟩)⟩
+
+/-! ### reversed iteration, membership tests, and what the canonical members are -/
+
+theorem membersOf_reverse (map : List (Name × EnumMember)) (ns : List Name) (ms : List EnumMember)
+    (h : DynEnum.membersOf map ns = .ok ms) : DynEnum.membersOf map ns.reverse = .ok ms.reverse := by
+  induction ns generalizing ms with
+  | nil => simp only [DynEnum.membersOf] at h; injection h with h; subst h; rfl
+  | cons n ns ih =>
+    simp only [DynEnum.membersOf] at h
+    cases hd : dget n map with
+    | none => rw [hd] at h; cases h
+    | some m =>
+      rw [hd] at h
+      cases hr : DynEnum.membersOf map ns with
+      | error err => rw [hr] at h; cases h
+      | ok ms' =>
+        rw [hr] at h; injection h with h; subst h
+        rw [List.reverse_cons, List.reverse_cons]
+        exact membersOf_append map _ _ _ _ (ih ms' hr) (by simp only [DynEnum.membersOf, hd])
+
+/-- Reversed iteration is iteration reversed, whenever `_member_names_` resolves. -/
+theorem reversedIter_of_members {e : DynEnum} {ms : List EnumMember} (h : DynEnum.membersOf e.map e.names = .ok ms) :
+    e.iter = .ok (ms.filter fun m => !m.isUnrecognized) ∧
+      e.reversedIter = .ok (ms.filter fun m => !m.isUnrecognized).reverse := by
+  refine ⟨by simp only [DynEnum.iter, h], ?_⟩
+  simp only [DynEnum.reversedIter, membersOf_reverse _ _ _ h, List.filter_reverse]
+
+/-- Reversed iteration does not show the hidden members either. -/
+theorem EnumBase.reversed_withExtras {e0 : DynEnum} (B : EnumBase e0) (xs : List Int) :
+    (withExtras e0 xs).reversedIter = e0.reversedIter := by
+  obtain ⟨ms0, h0⟩ := membersOf_ok e0.names B.namesOk
+  obtain ⟨hs, h1, h2⟩ := membersOf_hidden B xs xs (fun _ h => h)
+  have h0' : DynEnum.membersOf (withExtras e0 xs).map e0.names = .ok ms0 := by
+    show DynEnum.membersOf (e0.map ++ _) _ = _
+    rw [membersOf_ext _ _ B.namesOk, h0]
+  have hall : DynEnum.membersOf (withExtras e0 xs).map (withExtras e0 xs).names = .ok (ms0 ++ hs) :=
+    membersOf_append _ _ _ _ _ h0' h1
+  have hf : hs.filter (fun m => !m.isUnrecognized) = [] := by
+    rw [List.filter_eq_nil_iff]
+    intro m hm; simp [h2 m hm]
+  rw [(reversedIter_of_members hall).2, (reversedIter_of_members h0).2]
+  simp only [List.filter_append, hf, List.append_nil]
+
+/-- `v in E` in a reachable state: exactly the values of the initial class. -/
+theorem EnumBase.contains_withExtras {e0 : DynEnum} (B : EnumBase e0) (xs : List Int) (v : Int) :
+    (withExtras e0 xs).containsValue v = (dget v e0.v2m).isSome := by
+  show (match dget v (e0.v2m ++ _) with | some m => !m.isUnrecognized | none => false) = _
+  cases h : dget v e0.v2m with
+  | some m => rw [dget_append_some h]; simp [(B.v2mVal v m h).2]
+  | none =>
+    rw [dget_append_none h, dget_extrasV]
+    by_cases hx : v ∈ xs
+    · simp [if_pos hx, hiddenMember_unrecognized]
+    · simp [if_neg hx]
+
+/-- Everything the tables of a freshly built class point at is a canonical member. -/
+structure CanonInv (r : List (Name × Int)) (e : DynEnum) : Prop where
+  v2mCanon : ∀ v m, dget v e.v2m = some m → m ∈ canonRev r
+  mapCanon : ∀ p ∈ e.map, p.2 ∈ canonRev r
+
+theorem CanonInv.ofDefinedRev (r : List (Name × Int)) : CanonInv r (DynEnum.ofDefinedRev r) := by
+  induction r with
+  | nil => exact ⟨fun _ _ h => (by simp [DynEnum.ofDefinedRev, DynEnum.empty, dget] at h), fun _ h => (nomatch h)⟩
+  | cons q t ih =>
+    have I := DefInv.ofDefinedRev t
+    show CanonInv (q :: t) ((DynEnum.ofDefinedRev t).defineMember q.1 q.2)
+    cases h : dget q.2 (DynEnum.ofDefinedRev t).v2m with
+    | some c =>
+      have hvt : q.2 ∈ t.map (·.2) := (I.keysV q.2).1 (by rw [h]; rfl)
+      have hc : canonRev (q :: t) = canonRev t := by simp only [canonRev, if_pos hvt]
+      simp only [DynEnum.defineMember, h]
+      refine ⟨fun v m hm => hc ▸ ih.v2mCanon v m hm, ?_⟩
+      intro p hp
+      rw [hc]
+      rcases mem_dset hp with rfl | hp
+      · exact ih.v2mCanon _ _ h
+      · exact ih.mapCanon p hp
+    | none =>
+      have hvt : q.2 ∉ t.map (·.2) := fun hm => by
+        have := (I.keysV q.2).2 hm
+        rw [h] at this; cases this
+      have hc : canonRev (q :: t) = canonRev t ++ [⟨q.1, q.2⟩] := by simp only [canonRev, if_neg hvt]
+      simp only [DynEnum.defineMember, h]
+      refine ⟨?_, ?_⟩
+      · intro v m hm
+        rw [hc]
+        have hm : dget v ((DynEnum.ofDefinedRev t).v2m ++ [(q.2, ⟨q.1, q.2⟩)]) = some m := hm
+        cases h' : dget v (DynEnum.ofDefinedRev t).v2m with
+        | some m' =>
+          rw [dget_append_some h'] at hm
+          injection hm with hm; subst hm
+          exact List.mem_append_left _ (ih.v2mCanon _ _ h')
+        | none =>
+          rw [dget_append_none h'] at hm
+          simp only [dget] at hm
+          split at hm
+          · injection hm with hm; subst hm
+            exact List.mem_append_right _ List.mem_cons_self
+          · cases hm
+      · intro p hp
+        rw [hc]
+        rcases mem_dset hp with rfl | hp
+        · exact List.mem_append_right _ List.mem_cons_self
+        · exact List.mem_append_left _ (ih.mapCanon p hp)
+
+/-- Every value of the body is the value of a canonical member (and, by `canonRev_mem`, of no other value). -/
+theorem canonRev_values (r : List (Name × Int)) (v : Int) : v ∈ (canonRev r).map (·.value) ↔ v ∈ r.map (·.2) := by
+  constructor
+  · intro h
+    obtain ⟨m, hm, rfl⟩ := List.mem_map.1 h
+    exact List.mem_map.2 ⟨_, canonRev_mem hm, rfl⟩
+  · induction r with
+    | nil => intro h; cases h
+    | cons p t ih =>
+      intro h
+      rw [List.map_cons, List.mem_cons] at h
+      simp only [canonRev]
+      split
+      · rename_i hp
+        rcases h with h | h
+        · exact ih (h ▸ hp)
+        · exact ih h
+      · rename_i hp
+        rw [List.map_append, List.mem_append]
+        rcases h with h | h
+        · exact Or.inr (by simp [h])
+        · exact Or.inl (ih h)
+
+/-- Canonical members come in the order of the class body. -/
+theorem canonRev_sublist (r : List (Name × Int)) :
+    (canonRev r).Sublist (r.reverse.map fun p => (⟨p.1, p.2⟩ : EnumMember)) := by
+  induction r with
+  | nil => exact List.Sublist.slnil
+  | cons p t ih =>
+    simp only [canonRev, List.reverse_cons, List.map_append, List.map_cons, List.map_nil]
+    split
+    · exact List.Sublist.trans ih (List.sublist_append_left _ _)
+    · exact List.Sublist.append ih (List.Sublist.refl _)
 
 /-! ### bit masks -/
 
